@@ -479,7 +479,7 @@ def check_destroy(rep, repo, pre=""):
         w = graph_walk(repo, "Subgraph", meth)
         fn = w.entry
         for fld, want in fields.items():
-            st = [e for e in w.events if e.kind == "store" and e.fn is fn and e.target[0] == "attr" and e.target[2] == fld]
+            st = [e for e in w.events if e.kind == "store" and e.target[0] == "attr" and e.target[2] == fld]
             ok = False
             detail = f"expected one unconditional store to .{fld} per node, in a loop over all nodes"
             if len(st) == 1 and len(st[0].loops) == 1 and not facts(st[0].guards):
